@@ -8,6 +8,8 @@ def _cluster_part(rep, tier, seed):
     from props import cluster
     cluster.judge(rep, PID, tier, 0, args={"scenarios": True, "seed": 0}, what="directed schedules (multi-height, future cache)")
     cluster.judge(rep, PID, tier, seed, what="random adversarial schedules over several heights")
+    from props import specreplay
+    specreplay.judge_two_heights(rep, PID, tier, seed)
 
 
 def run(tier, seed):
